@@ -115,6 +115,7 @@ func md5h(b []byte) KV { return KV{K: "Content-MD5", V: s3c.MD5b64(b)} }
 func LegalHoldXML(status string) string {
 	return `<LegalHold xmlns="http://s3.amazonaws.com/doc/2006-03-01/"><Status>` + status + `</Status></LegalHold>`
 }
+
 // RetentionXML spells the instant in UTC or with a zone offset (chosen from the instant itself, so that the
 // same call always gives the same document): the date is an ISO 8601 timestamp and an offset is legal.
 func RetentionXML(mode string, until time.Time) string {
